@@ -9,5 +9,12 @@ for c in $(git rev-list --reverse main..fix-$n); do
 done
 git log --oneline -8 | cat
 cd /verif || exit 1
-git merge --no-edit b-$n 2>&1 | tail -3
+if ! git merge --no-edit b-$n >/tmp/merge.log 2>&1; then
+  # evidence files are rewritten by every run: on conflict take the builder's, the next check run refreshes them
+  for f in $(git diff --name-only --diff-filter=U); do
+    case $f in evidence/*) git checkout --theirs -- $f; git add $f;; *) echo "CONFLICT in $f"; cat /tmp/merge.log; exit 1;; esac
+  done
+  git commit --no-edit -q
+fi
+tail -3 /tmp/merge.log
 python3 tools/gen_manifest.py
